@@ -438,6 +438,139 @@ fn suite_termops(out: &mut Out, tier: &str, rng: &mut Rng) {
     }
 }
 
+
+// ------------------------------------------------------------------ metamorphic checks (C01, C02, C08)
+// (a) UD is an inert constant: replacing it by a fresh free variable commutes with reduce / apply;
+// (b) free variables are never renumbered: shifting all free indices by 2^32 commutes with reduce / apply.
+fn replace_ud(t: &Term, k: usize, depth: usize) -> Term {
+    match t {
+        Var(0) => Var(depth + k),
+        Var(i) => Var(*i),
+        Abs(b) => abs(replace_ud(b, k, depth + 1)),
+        App(p) => app(replace_ud(&p.0, k, depth), replace_ud(&p.1, k, depth)),
+    }
+}
+fn shift_free(t: &Term, b: usize, depth: usize) -> Term {
+    match t {
+        Var(i) => Var(if *i > depth { *i + b } else { *i }),
+        Abs(x) => abs(shift_free(x, b, depth + 1)),
+        App(p) => app(shift_free(&p.0, b, depth), shift_free(&p.1, b, depth)),
+    }
+}
+fn unshift_free(t: &Term, b: usize, depth: usize) -> Option<Term> {
+    Some(match t {
+        Var(i) => {
+            if *i > depth {
+                if *i > depth + b {
+                    Var(*i - b)
+                } else {
+                    return None;
+                }
+            } else {
+                Var(*i)
+            }
+        }
+        Abs(x) => abs(unshift_free(x, b, depth + 1)?),
+        App(p) => app(unshift_free(&p.0, b, depth)?, unshift_free(&p.1, b, depth)?),
+    })
+}
+fn has_ud(t: &Term) -> bool {
+    match t {
+        Var(i) => *i == 0,
+        Abs(b) => has_ud(b),
+        App(p) => has_ud(&p.0) || has_ud(&p.1),
+    }
+}
+const K: usize = 40; // a level above every free level the generators produce
+const BS: [usize; 2] = [(1 << 32) - 1, (1 << 48) + 12345];
+fn suite_meta_reduce(out: &mut Out, tier: &str, rng: &mut Rng) {
+    let mut terms = universe(tier, 5, 6, 3);
+    terms.extend(randoms(rng, if tier == "thorough" { 8000 } else { 1500 }, 35, true));
+    for t in &terms {
+        for (o, oname) in ORDERS.iter() {
+            let (safe, total) = probe(*o, t, 40, 1500);
+            let limit = if total.is_some() { 0 } else { safe };
+            if total.is_none() && safe == 0 {
+                continue;
+            }
+            let run = |x: &Term| -> Option<(Term, usize)> {
+                let mut u = x.clone();
+                begin(format!("meta {} {} {}", oname, limit, ser(x)));
+                guarded(|| u.reduce(*o, limit)).ok().map(|c| (u, c))
+            };
+            let r1 = run(t);
+            if has_ud(t) {
+                let r2 = run(&replace_ud(t, K, 0));
+                if let (Some((a, ca)), Some((b, cb))) = (&r1, &r2) {
+                    out.line(format!("meta-ud\treduce\t{}\t{}\t{}\t{}\t{}\t{}\t{}", oname, limit, ser(t), ser(a), ca, ser(b), cb));
+                } else {
+                    out.line(format!("meta-ud\treduce\t{}\t{}\t{}\tpanic\t0\tpanic\t0", oname, limit, ser(t)));
+                }
+            }
+            for &bb in BS.iter() {
+                let r3 = run(&shift_free(t, bb, 0));
+                if let (Some((a, ca)), Some((b, cb))) = (&r1, &r3) {
+                    let u = unshift_free(b, bb, 0).map(|x| ser(&x)).unwrap_or("ERR".into());
+                    out.line(format!("meta-shift\treduce\t{}\t{}\t{}\t{}\t{}\t{}\t{}", oname, limit, ser(t), ser(a), ca, u, cb));
+                } else {
+                    out.line(format!("meta-shift\treduce\t{}\t{}\t{}\tpanic\t0\tpanic\t0", oname, limit, ser(t)));
+                }
+            }
+        }
+    }
+}
+fn suite_meta_apply(out: &mut Out, tier: &str, rng: &mut Rng) {
+    let us = universe(tier, 4, 5, 3);
+    let args = universe(tier, 3, 3, 3);
+    let mut pairs: Vec<(Term, Term)> = Vec::new();
+    for t in &us {
+        if let Abs(_) = t {
+            for a in &args {
+                pairs.push((t.clone(), a.clone()));
+            }
+        }
+    }
+    for _ in 0..(if tier == "thorough" { 10000 } else { 1500 }) {
+        let d = rng.below(5) as usize;
+        let b = 3 + rng.below(30) as usize;
+        let mut t = random_term(rng, b, 1 + d, 5, true);
+        for _ in 0..=d {
+            t = abs(t);
+        }
+        let b = 1 + rng.below(10) as usize;
+        let a = random_term(rng, b, 0, 5, true);
+        pairs.push((t, a));
+    }
+    for (t, a) in pairs {
+        let run = |x: &Term, y: &Term| -> Option<Term> {
+            let mut u = x.clone();
+            begin(format!("meta-apply {} {}", ser(x), ser(y)));
+            match guarded(|| u.apply(y)) {
+                Ok(Ok(())) => Some(u),
+                _ => None,
+            }
+        };
+        let r1 = run(&t, &a);
+        if has_ud(&t) || has_ud(&a) {
+            let r2 = run(&replace_ud(&t, K, 0), &replace_ud(&a, K, 0));
+            match (&r1, &r2) {
+                (Some(x), Some(y)) => out.line(format!("meta-ud\tapply\t-\t0\t{}|{}\t{}\t0\t{}\t0", ser(&t), ser(&a), ser(x), ser(y))),
+                _ => out.line(format!("meta-ud\tapply\t-\t0\t{}|{}\tpanic\t0\tpanic\t0", ser(&t), ser(&a))),
+            }
+        }
+        for &bb in BS.iter() {
+            let r3 = run(&shift_free(&t, bb, 0), &shift_free(&a, bb, 0));
+            match (&r1, &r3) {
+                (Some(x), Some(y)) => {
+                    let u = unshift_free(y, bb, 0).map(|z| ser(&z)).unwrap_or("ERR".into());
+                    out.line(format!("meta-shift\tapply\t-\t0\t{}|{}\t{}\t0\t{}\t0", ser(&t), ser(&a), ser(x), u))
+                }
+                _ => out.line(format!("meta-shift\tapply\t-\t0\t{}|{}\tpanic\t0\tpanic\t0", ser(&t), ser(&a))),
+            }
+        }
+    }
+}
+
 fn main() {
     let args: Vec<String> = std::env::args().collect();
     let suite = args.get(1).cloned().unwrap_or_default();
@@ -476,6 +609,8 @@ fn main() {
                 "history" => suite_history(&mut out, &tier, &mut rng),
                 "normalise" => suite_normalise(&mut out, &tier, &mut rng),
                 "termops" => suite_termops(&mut out, &tier, &mut rng),
+                "meta-reduce" => suite_meta_reduce(&mut out, &tier, &mut rng),
+                "meta-apply" => suite_meta_apply(&mut out, &tier, &mut rng),
                 _ => {
                     eprintln!("unknown suite {}", suite);
                     std::process::exit(2);
